@@ -294,7 +294,7 @@ def snapshot(ts):
                 constant=t.constant,
                 base=id(t.base) if t.base is not None else None,
                 creator=id(t.creator) if t.creator is not None else None,
-                nops=len(t._ops),
+                nops=sum(1 for r in t._ops if r() is not None),  # live consumers (a dead weak reference is not a place in the graph)
                 children=sorted(id(c) for c in t._view_children),
                 vars=None if t.creator is None else tuple(id(v) for v in t.creator.variables),
                 grad=None if t.grad is None else t.grad.copy(),
@@ -318,7 +318,7 @@ def check_c13(tier, seed):
     rng = np.random.default_rng(seed)
     b = Bounded(
         "C13.bounded",
-        bound="6 base programs x every insertion position x 14 failing statement kinds (bad broadcast in a non-view op, bad reshape / index in a view op, bad value shape / out-of-range index / read-only target in an in-place update on a base and on a view, bad dtype, bad out=, bad axis, bad einsum spec); one epoch and across an epoch boundary",
+        bound="6 base programs x every insertion position x 18 failing statement kinds (integer result / integer view requested with constant=False -- the kernel succeeds and the result is refused --, bad broadcast in a non-view op, bad reshape / index in a view op, bad value shape / out-of-range index / read-only target in an in-place update on a base and on a view, bad dtype, bad out=, bad axis, bad einsum spec); one epoch and across an epoch boundary",
         rule="case = (program, position, failing statement); non-trivial = the statement raises and the snapshot of every existing tensor is compared",
     )
 
@@ -360,10 +360,18 @@ def check_c13(tier, seed):
         if kind == "shape-set-bad":
             x.shape = (5, 5)
             return None
+        # statements whose kernel succeeds and whose *result* is then refused (integer result requested as a variable)
+        if kind == "int-result-nonconstant":
+            return mg.multiply(env["k"], 2, constant=False)
+        if kind == "int-view-nonconstant":
+            return env["k"].reshape(3, 1, constant=False)
+        if kind == "int-result-nonconstant-mixed":
+            return mg.add(env["k"], env["k"].data, constant=False)
         raise AssertionError(kind)
 
     kinds = ["bad-broadcast", "bad-matmul", "bad-reshape", "bad-index", "bad-index-view", "bad-axis", "bad-einsum", "inplace-bad-shape-base", "inplace-bad-shape-view",
-             "inplace-oob-base", "inplace-oob-view", "inplace-iadd-bad", "bad-out", "bad-dtype", "shape-set-bad"]
+             "inplace-oob-base", "inplace-oob-view", "inplace-iadd-bad", "bad-out", "bad-dtype", "shape-set-bad",
+             "int-result-nonconstant", "int-view-nonconstant", "int-result-nonconstant-mixed"]
 
     # programs as step lists over an environment; x (2,3) base, v a view of it, w uses both
     def steps_simple():
@@ -396,7 +404,7 @@ def check_c13(tier, seed):
         c = mg.tensor(rng_vals[1].copy())
         x = a * 1.0
         v = x[1]
-        env = dict(a=a, c=c, x=x, v=v)
+        env = dict(a=a, c=c, x=x, v=v, k=mg.tensor([1, 2, 3]))
         if across_epoch:
             (x.sum() + v.sum()).backward()  # x, v now carry gradients and a cleared graph
         return env
@@ -429,6 +437,7 @@ def check_c13(tier, seed):
                         continue
                     tens = [t for t in env.values() if isinstance(t, Tensor)]
                     before = snapshot(tens)
+                    wflags = [t.data.flags.writeable for t in tens]
                     raised = False
                     try:
                         failing(kind, env)
@@ -441,6 +450,9 @@ def check_c13(tier, seed):
                     diff = snap_equal(before, after)
                     if diff is not None:
                         b.fail("C13.bounded.trace", desc, f"field `{diff}` of an existing tensor changed although the statement raised")
+                    locked_now = [n for n, t, w in zip([k for k, t in env.items() if isinstance(t, Tensor)], tens, wflags) if w and not t.data.flags.writeable and (t.data.base is None or t.data.base.flags.writeable)]  # (a view's flag is restored lazily, once its base is released)
+                    if locked_now:
+                        b.fail("C13.bounded.lock_released", desc, f"array(s) of {locked_now} were writeable before the failed statement and are read-only after it")
                     try:
                         for st in steps[pos:]:
                             st(env)
@@ -468,6 +480,19 @@ def check_c13(tier, seed):
     b.case(dict(contract="failed op releases locks"))
     if not A.flags.writeable:
         b.fail("C13.bounded.lock_leak", {}, "array stays locked after the operation failed")
+    # ... also when it is the result, not the kernel, that is refused; the operand is the caller's own array
+    for nm, call in (("multiply", lambda A: mg.multiply(A, 2, constant=False)), ("reshape", lambda A: mg.reshape(A, (3, 1), constant=False)), ("getitem", lambda A: mg.Tensor._op(type(mg.tensor(A)[:1].creator), A, op_args=(slice(0, 1),), constant=False)), ("sum", lambda A: mg.sum(A, constant=False))):
+        A = np.array([1, 2, 3])
+        try:
+            call(A)
+        except ValueError:
+            pass
+        else:
+            continue
+        b.count("refused result releases locks")
+        b.case(dict(contract="refused integer result releases locks", op=nm))
+        if not A.flags.writeable:
+            b.fail("C13.bounded.lock_leak", dict(op=nm, operand="np.array([1, 2, 3])", constant=False), "the caller's array stays read-only after the operation raised")
     return b
 
 
@@ -676,6 +701,62 @@ def check_c15(tier, seed):
         if t.data is not mem or not np.array_equal(t.data, rt.data) or t.creator is not None:
             b.fail("C15.bounded.inplace", desc, "in-place update did not write the tensor's own memory / recorded a graph / wrong values")
         b.case(desc)
+    # in-place updates inside no_autodiff on tensors in every gradient / view state: besides the written values NOTHING changes --
+    # the gradients of the target, of its base and of sibling views, the base links, creators, consumers
+    def states():
+        x = mg.tensor(rng.uniform(1, 2, size=(4,)))
+        yield "fresh leaf", x, x, [x]
+        x = mg.tensor(rng.uniform(1, 2, size=(4,)))
+        (x * x).sum().backward()
+        yield "leaf holding a gradient", x, x, [x]
+        x = mg.tensor(rng.uniform(1, 2, size=(4,)))
+        v = x[:2]
+        (v * 3.0).sum().backward()
+        yield "view that went through backward (cached window)", v, x, [x, v]
+        x = mg.tensor(rng.uniform(1, 2, size=(4,)))
+        (x * x).sum().backward()
+        v = x[1:]
+        _ = v.grad
+        yield "fresh view of a gradient-holding leaf, window read", v, x, [x, v]
+        x = mg.tensor(rng.uniform(1, 2, size=(4,)))
+        (x * x).sum().backward()
+        v = x[1:]
+        w = x[:2]
+        yield "fresh view, window not read, sibling view", v, x, [x, v, w]
+        x = mg.tensor(rng.uniform(1, 2, size=(4,)))
+        v = x[::2]
+        L = (v * x[:2]).sum()
+        yield "view inside a live (not yet back-propagated) graph", v, x, [x, v, L]
+
+    def snap(ts):
+        return [(None if t.grad is None else t.grad.copy(), t.base, t.creator, len(t._ops), t.constant) for t in ts]
+
+    for nm, f in (("setitem", lambda t: t.__setitem__(0, 5.0)), ("imul", lambda t: t.__imul__(3.0)), ("out=", lambda t: mg.add(t, 1.0, out=t)), ("iadd-array", lambda t: t.__iadd__(np.ones(t.shape)))):
+        for sname, target, owner, watch in states():
+            desc = dict(inplace_inside_no_autodiff=nm, state=sname)
+            b.count("in-place inside no_autodiff leaves gradients and graph alone")
+            before = snap(watch)
+            ref = owner.data.copy()
+            was_locked = not owner.data.flags.writeable
+            try:
+                with mg.no_autodiff:
+                    f(target)
+            except ValueError as e:
+                if was_locked and "read-only" in str(e):
+                    b.case(desc, nontrivial=False)  # the memory belongs to a live graph: refusing the write is the guard's job (C08)
+                    continue
+                b.fail("C15.bounded.inplace_raises", desc, f"{type(e).__name__}: {e}")
+                continue
+            except Exception as e:
+                b.fail("C15.bounded.inplace_raises", desc, f"{type(e).__name__}: {e}")
+                continue
+            after = snap(watch)
+            for k_, ((g0, b0, c0, n0, k0), (g1, b1, c1, n1, k1)) in enumerate(zip(before, after)):
+                same_g = (g0 is None and g1 is None) or (g0 is not None and g1 is not None and np.array_equal(g0, g1))
+                if not same_g or b0 is not b1 or c0 is not c1 or n0 != n1 or k0 is not k1:
+                    b.fail("C15.bounded.inplace_touched_state", dict(desc, tensor=k_), f"gradient kept: {same_g}; base kept: {b0 is b1}; creator kept: {c0 is c1}; consumers {n0}->{n1}; flag kept: {k0 is k1}")
+                    break
+            b.case(desc)
     return b
 
 
